@@ -182,6 +182,9 @@ def reparam_run(rng, m):
 
 
 def run_shard(campaign, shard, nshards, seed, tier):
+    if campaign == 'api':
+        import apiuse
+        return apiuse.run_api('C03', shard, nshards, seed, tier)
     if campaign == 'reparam':
         part = Part()
         rng = random.Random('%s/%s/%s' % (seed, campaign, shard))
@@ -218,4 +221,6 @@ def run_shard(campaign, shard, nshards, seed, tier):
 def run(ctx):
     run_sharded(ctx, 'C03', 'streams', nshards=16)
     run_sharded(ctx, 'C03', 'reparam')
-    return RULE, ASSUME
+    run_sharded(ctx, 'C03', 'api', nshards=2)
+    import apiuse
+    return RULE + apiuse.rule_text('C03'), ASSUME
